@@ -47,7 +47,8 @@ type artefact struct {
 	// DER-aware mutation works on inner and re-wraps; nil wrap = data is the DER itself.
 	inner []byte
 	wrap  func([]byte) []byte
-	tree  *derTree // nil: not DER (raw encodings)
+	tree  *derTree   // nil: not DER (raw encodings)
+	relen []relenPos // (element, length) pairs of the der-relength mutator, for the tier of the run
 }
 
 type world struct {
@@ -672,6 +673,9 @@ func (w *world) buildCFCA() {
 	env, err := cfca.EnvelopeMessage(pkcs.SM4CBC, w.msg, certs)
 	must("cfca envelope", err)
 	w.add("cfca.enveloped", env)
+	env, err = cfca.EnvelopeMessage(pkcs.SM4GCM, w.msg, certs)
+	must("cfca envelope gcm", err)
+	w.add("cfca.enveloped.gcm", env)
 	env, err = cfca.EnvelopeMessageLegacy(pkcs.SM4CBC, w.msg, certs)
 	must("cfca envelope legacy", err)
 	w.add("cfca.enveloped.legacy", env)
